@@ -466,6 +466,31 @@ pub fn run(ctx: &Ctx, id: &str) -> i32 {
                     r.count("non_fault_runs", 1);
                 }
             }
+            // a talkative but healthy terminal: 300 intermediate statuses / print lines inside the operation's main exchange
+            if shard == 3 % threads {
+                for op in OPS {
+                    let cmds: Vec<Cmd> = match op {
+                        Op::New | Op::Configure => vec![Cmd::Initialization, Cmd::EndOfDay],
+                        Op::ReadCard => vec![Cmd::ReadCard],
+                        Op::Begin | Op::BeginOtherOpen => vec![Cmd::Reservation],
+                        Op::Commit | Op::CommitOtherOpen => vec![Cmd::PartialReversal, Cmd::EndOfDay],
+                        Op::Cancel | Op::CancelOtherOpen => vec![Cmd::PreAuthReversal, Cmd::EndOfDay],
+                    };
+                    for cmd in cmds {
+                        let (mut sc, idx) = skeleton(op, &base_cfg);
+                        let pre: Vec<Pre> = (0..300).map(|i| if cmd == Cmd::ReadCard || cmd == Cmd::Reservation || i % 3 != 0 { Pre::Intermediate { status: (i % 200) as u8, timeout: 0 } } else { Pre::PrintLine(format!("Zeile {i}")) }).collect();
+                        sc.plan.ex.remove(&(idx, cmd));
+                        sc.plan.push(idx, cmd, ExPlan { pre, ..ExPlan::default() });
+                        let label = format!("{op:?}: no fault, 300 intermediate packets inside the {cmd:?} exchange");
+                        let tr = run_and_judge(r, id, &sc, idx, &schema, &label, true);
+                        let opened = tr.log.iter().filter(|e| e.dir == Dir::Open).count();
+                        if !tr.calls.iter().all(|c| c.result.is_ok()) || opened != 1 {
+                            r.violation("C09: a healthy terminal is abandoned (many intermediate packets inside an exchange)", &format!("{label}: {} connections opened, results {:?}", opened, tr.calls.iter().map(|c| c.result.short()).collect::<Vec<_>>()), case_json(&sc, &tr));
+                        }
+                        r.count("non_fault_runs", 1);
+                    }
+                }
+            }
             // the registration completion carries its optional fields (status byte with 'initialisation necessary' and other
             // bits set): not a fault; and together with a wrong serial: still no command before the identity check
             if shard == 2 % threads {
